@@ -181,6 +181,21 @@ pub fn body(scn: &Scn, log: &Arc<Mutex<Vec<Ev>>>) {
                 match *st {
                     Step::Connect(c) => {
                         let (cl, sv) = verif_pair(addr_of(c), SocketAddr::from(([10, 0, 0, 2], 80)));
+                        // where a message larger than a socket buffer goes out, the clients read what they are
+                        // sent (a peer that never reads is outside the scenarios of this property; the server's
+                        // blocking write would wait for it forever)
+                        if scn2.steps.contains(&Step::ExtBcBig) && !scn2.steps.iter().any(|s| matches!(s, Step::Abrupt(_))) {
+                            if let Ok(mut rd) = cl.try_clone() {
+                                let _ = thread::Builder::new().name(format!("reader{}", c)).spawn(move || {
+                                    let mut tmp = vec![0u8; 1 << 16];
+                                    while let Ok(n) = std::io::Read::read(&mut rd, &mut tmp) {
+                                        if n == 0 {
+                                            break;
+                                        }
+                                    }
+                                });
+                            }
+                        }
                         socks[c] = Some(cl);
                         hook.lock().unwrap().send(WebsocketStream::new(Stream::Tcp(sv))).ok();
                     }
